@@ -121,6 +121,10 @@ type interpreter struct {
 	fdTick    int
 	tick      int // logical clock for vrt.Tick
 	fallbacks map[string]*smt.Solver
+	syncUses  map[interface{}]*syncUse // per path: who read / modified each synchronisation object
+	hot       *hotSet                  // read sites that are scheduling points (shared by the workers)
+	hotGrew   func()
+	setupMutexes int
 }
 
 type deferred struct {
@@ -145,6 +149,7 @@ type frame struct {
 	phitemps         []value // temporaries for parallel phi assignment
 	depth            int     // number of live activations below and including this one
 	thr              *thread
+	cur              ssa.Instruction // instruction being executed (for reporting preemption sites)
 }
 
 func (fr *frame) get(key ssa.Value) value {
@@ -228,6 +233,7 @@ func lookupMethod(i *interpreter, typ types.Type, meth *types.Func) *ssa.Functio
 // record frame.  It returns a continuation value indicating where to
 // read the next instruction from.
 func visitInstr(fr *frame, instr ssa.Instruction) continuation {
+	fr.cur = instr
 	if p := fr.i.path; p != nil {
 		p.steps++
 		if p.steps > p.budget {
